@@ -340,7 +340,7 @@ func (S *Sorts) sortOf(t types.Type) string {
 func (S *Sorts) structOf(t types.Type) *structSort {
 	st := t.Underlying().(*types.Struct)
 	for _, s := range S.structs {
-		if types.Identical(s.st, st) {
+		if identTP(s.st, st) {
 			return s
 		}
 	}
@@ -383,7 +383,7 @@ func (S *Sorts) boxOf(t types.Type) *dynCtor {
 
 func (S *Sorts) mapOf(k, v types.Type) *mapSort {
 	for _, m := range S.maps {
-		if types.Identical(m.k, k) && types.Identical(m.v, v) {
+		if identTP(m.k, k) && identTP(m.v, v) {
 			return m
 		}
 	}
@@ -435,12 +435,13 @@ func (S *Sorts) prelude() string {
 		b.WriteString("))")
 		bodies = append(bodies, b.String())
 	}
-	for _, m := range S.maps {
-		names = append(names, "("+m.name+" 0)")
-		bodies = append(bodies, fmt.Sprintf("((%s (%s (Array %s Bool)) (%s (Array %s %s)) (%s Int)))",
-			m.ctor(), m.present(), S.sortOf(m.k), m.vals(), S.sortOf(m.k), S.sortOf(m.v), m.size()))
-	}
 	sb.WriteString("(declare-datatypes (" + strings.Join(names, " ") + ") (\n  " + strings.Join(bodies, "\n  ") + "))\n")
+	// map values live in heaps only (a map is a reference everywhere else), so their datatypes need not be
+	// part of the recursive block; outside it a key sort that is itself in the block (Dyn) is allowed
+	for _, m := range S.maps {
+		fmt.Fprintf(&sb, "(declare-datatypes ((%s 0)) (((%s (%s (Array %s Bool)) (%s (Array %s %s)) (%s Int)))))\n",
+			m.name, m.ctor(), m.present(), S.sortOf(m.k), m.vals(), S.sortOf(m.k), S.sortOf(m.v), m.size())
+	}
 	return sb.String()
 }
 
@@ -529,4 +530,75 @@ func inRange(t types.Type, e Term) Term {
 		return "true"
 	}
 	return and(app("<=", bigNum(lo), e), app("<=", e, bigNum(hi)))
+}
+
+// identTP is types.Identical up to the identity of type parameters: the same generic declaration seen
+// from two generic functions (a method and a spec function, each with its own V) is one sort; every
+// type parameter is the sort Dyn.
+func identTP(a, b types.Type) bool {
+	a, b = types.Unalias(a), types.Unalias(b)
+	if types.Identical(a, b) {
+		return true
+	}
+	switch x := a.(type) {
+	case *types.TypeParam:
+		_, ok := b.(*types.TypeParam)
+		return ok
+	case *types.Named:
+		y, ok := b.(*types.Named)
+		if !ok || x.Origin().Obj() != y.Origin().Obj() {
+			return false
+		}
+		xa, ya := x.TypeArgs(), y.TypeArgs()
+		if xa.Len() != ya.Len() {
+			return false
+		}
+		for i := 0; i < xa.Len(); i++ {
+			if !identTP(xa.At(i), ya.At(i)) {
+				return false
+			}
+		}
+		return true
+	case *types.Pointer:
+		y, ok := b.(*types.Pointer)
+		return ok && identTP(x.Elem(), y.Elem())
+	case *types.Slice:
+		y, ok := b.(*types.Slice)
+		return ok && identTP(x.Elem(), y.Elem())
+	case *types.Array:
+		y, ok := b.(*types.Array)
+		return ok && x.Len() == y.Len() && identTP(x.Elem(), y.Elem())
+	case *types.Map:
+		y, ok := b.(*types.Map)
+		return ok && identTP(x.Key(), y.Key()) && identTP(x.Elem(), y.Elem())
+	case *types.Chan:
+		y, ok := b.(*types.Chan)
+		return ok && x.Dir() == y.Dir() && identTP(x.Elem(), y.Elem())
+	case *types.Tuple:
+		y, ok := b.(*types.Tuple)
+		if !ok || x.Len() != y.Len() {
+			return false
+		}
+		for i := 0; i < x.Len(); i++ {
+			if !identTP(x.At(i).Type(), y.At(i).Type()) {
+				return false
+			}
+		}
+		return true
+	case *types.Signature:
+		y, ok := b.(*types.Signature)
+		return ok && x.Variadic() == y.Variadic() && identTP(x.Params(), y.Params()) && identTP(x.Results(), y.Results())
+	case *types.Struct:
+		y, ok := b.(*types.Struct)
+		if !ok || x.NumFields() != y.NumFields() {
+			return false
+		}
+		for i := 0; i < x.NumFields(); i++ {
+			if x.Field(i).Name() != y.Field(i).Name() || x.Field(i).Embedded() != y.Field(i).Embedded() || !identTP(x.Field(i).Type(), y.Field(i).Type()) {
+				return false
+			}
+		}
+		return true
+	}
+	return false
 }
